@@ -39,7 +39,37 @@ def observe(p, again=False):
     return out
 
 
+def cli_run(text):
+    """the programmatic command-line interface (scriptplan.cli.main.run_scriptplan, what 'plan report' calls): status and
+    the files it writes"""
+    import hashlib
+    import os
+    import shutil
+    import tempfile
+    from scriptplan.cli.main import run_scriptplan
+    d = tempfile.mkdtemp(prefix="whist_")
+    try:
+        fn = os.path.join(d, "p.tjp")
+        with open(fn, "w") as fh:
+            fh.write(text)
+        out = os.path.join(d, "out")
+        os.makedirs(out)
+        try:
+            ok, _msg = run_scriptplan(fn, out)
+        except BaseException as ex:  # noqa
+            return {"raised": type(ex).__name__}
+        files = sorted((x, hashlib.sha256(open(os.path.join(out, x), "rb").read()).hexdigest()[:16]) for x in os.listdir(out))
+        return {"ok": bool(ok), "files": files}
+    finally:
+        shutil.rmtree(d, ignore_errors=True)
+
+
 def run(case):
+    if case.get("cli"):
+        err = io.StringIO()
+        with contextlib.redirect_stderr(err), contextlib.redirect_stdout(io.StringIO()):
+            log = [cli_run(step["text"]) for step in case.get("history", [])]
+            return {"ok": True, "obs": {"cli": cli_run(case["text"])}, "history": [str(x.get("ok", x.get("raised"))) for x in log]}
     err = io.StringIO()
     shared = ProjectFileParser() if case.get("reuse_parser") else None
     log = []
